@@ -96,9 +96,22 @@ _RESUME_FAILS = {
          {"op": "probe"}, {"op": "return", "e": 1}]],
     "params": {"kinds": {}},
 }
-_EXTRA = [(1, dict(_base, name="ctx-faults", p_ctx_fault=0.8, p_with=0.45, p_item=0.6, p_probe=0.25, p_nonasync=0.1))]
+# a flush body that cancels its own batch and returns normally, with another batch still scheduled; then another
+# computation on the thread
+_CANCEL_SELF = {
+    "roots": [
+        [{"op": "try", "body": [{"op": "yield", "x": "x1", "s": {"tuple": [
+            {"new": {"item": [0, 1, {"set": 1}]}}, {"new": {"item": [0, 2, {"set": 2}]}},
+            {"new": {"task": [{"op": "yield", "x": "a1", "s": {"new": {"item": [1, 3, {"set": 3}]}}}, {"op": "return", "e": {"var": "a1"}}]}}]}}],
+          "x": "e1", "handler": []}, {"op": "return", "e": 0}],
+        [{"op": "yield", "x": "x2", "s": {"new": {"item": [0, 4, {"set": 4}]}}}, {"op": "return", "e": {"var": "x2"}}]],
+    "params": {"kinds": {"0": {"raise": [1, 1001], "via_cancel": True}}},
+}
+_EXTRA = [(2, dict(_base, name="ctx-faults", p_ctx_fault=0.8, p_with=0.45, p_item=0.6, p_probe=0.25, p_nonasync=0.1)),
+          (1, dict(_base, name="cancel-self", p_flush_raise=0.8, p_via_cancel=0.8, p_item=0.65, nkinds=3)),
+          (1, dict(_base, name="base-errors", p_base_err=1.0, p_flush_raise=0.5, p_item=0.6))]
 
 mach.install(globals(), "C08", ("EvProbe", "EvSched"), ("C08:",), PROFILES, n_quick=300, n_thorough=25000,
              nontrivial=_nontrivial, level="proof",
-             corpus=[_GUARD_BATCH, _GUARD_NESTED, _GUARD_CAUGHT, _STALE_BATCH, _RESUME_FAILS],
-             extra_gen=mach.extra_profiles(_EXTRA, 40, 3000))
+             corpus=[_GUARD_BATCH, _GUARD_NESTED, _GUARD_CAUGHT, _STALE_BATCH, _RESUME_FAILS, _CANCEL_SELF],
+             extra_gen=mach.extra_profiles(_EXTRA, 60, 4000))
